@@ -491,4 +491,12 @@ def _add_false_ensures(spec):
 
 def emit_type(root, rel, name):
     text, l0, l1 = lookup_type(root, rel, name)
-    return text + '\n', (rel, l0, l1, hashlib.sha256(text.encode()).hexdigest())
+    sha = hashlib.sha256(text.encode()).hexdigest()
+    # R-vis: a private struct (and its fields) is emitted `pub`: visibility has no run-time meaning, and Verus only lets
+    # contracts of pub functions mention visible fields
+    m = re.match(r'^(\s*)struct\s', text)
+    if m:
+        head, brace, rest = text.partition('{')
+        rest = re.sub(r'(?m)^(\s*)(?!pub\b)(\w+\s*:)', r'\1pub \2', rest)
+        text = re.sub(r'^(\s*)struct\s', r'\1pub struct ', head) + brace + rest
+    return text + '\n', (rel, l0, l1, sha)
